@@ -75,7 +75,28 @@ def run_case(case):
             s.dev.silent_after_replies = f["k"]
         if f and f["kind"] in ("eof", "err"):
             s.dev.fault_at(s.sim.now + f["at_us"], f["kind"])
-        s.call(api.connection_check)
+        crng = random.Random(case["seed"] ^ 0xCA11BAC)
+        if case.get("fault") is None and not case.get("other_connection") and crng.random() < 0.2:
+            # the application asks from inside a callback of another live connection (its reader thread), e.g. to see
+            # whether a second receiver is there when the first one reports something
+            case["from_callback_of_other_connection"] = True
+            stop = s.start_decoy_connection([])
+            done = []
+
+            def on_other(st, sub, fn, v):
+                if not done:
+                    done.append(0)
+                    with s.sim.primary():
+                        s.call(api.connection_check)
+                    done.append(1)
+
+            with s.sim.decoy():
+                s.decoy_conn.register_message_callback(on_other)
+            s.decoy_dev.emit_at(s.sim.now + 400_000, b"@MAIN:VOL=-33.0\r\n")
+            while len(done) < 2:
+                s.sleep(0.1)
+        else:
+            s.call(api.connection_check)
         s.sleep(3.0)
         if stop:
             stop()
@@ -91,7 +112,14 @@ def model_reply_time(s):
     if len(idxs) < 3:
         return None
     own = idxs[2]
-    for e in s.sim.events:
+    # the reply to THAT write: an emission caused by it and made after it (a late reply to an earlier check on the same
+    # device carries the same ordinal)
+    ev = s.sim.events
+    start = getattr(s, "i_start", 0)
+    wi = next((i for i in range(start, len(ev)) if ev[i]["k"] == "Write" and ev[i].get("idx") == own), None)
+    if wi is None:
+        return None
+    for e in ev[wi:]:
         if e["k"] == "DevEmit" and e.get("cause") == own:
             return e["t"]
     return None
@@ -106,6 +134,12 @@ def monitor(s, case, rx):
         return "the temporary connection's transport is still open afterwards"
     if not s.threads_done():
         return "a library thread is still running afterwards: " + str([(t.name, t.state) for t in s.sim.threads])
+    if hasattr(s, "i_end"):
+        # "no thread is left running": when connection_check() returns (or raises), the temporary connection's threads
+        # have ended -- they do nothing any more afterwards
+        late = [e for e in s.sim.events[s.i_end :] if e["th"] in ("reader", "sender")]
+        if late:
+            return f"when connection_check() returned, the temporary connection's {late[0]['th']} thread was still running (it went on with {late[0]['k']})"
     if s.disconnects and not case.get("fault"):
         return "the disconnect callback was invoked by connection_check on a healthy link"
     t_reply = model_reply_time(s)
